@@ -4,6 +4,7 @@ import Ptn.C04.ValueOp
 import Ptn.C04.ValueCentre
 import Ptn.C04.CentreModel
 import Ptn.C04.ValueShortcut
+import Ptn.C04.ValueReroot
 import Ptn.C06.Demo
 /-! Property theorems for C04: the leg-graph theorems are in `Core.lean` (core Lean only), the value-level
 theorem in `Value.lean` (over `Ptn/Common/Einsum*.lean`, single Mathlib modules).  This file only adds the
@@ -440,5 +441,96 @@ example : KetLocal demoIsoKv (.node 0 [.node 1 []]) ∧ BraLocal demoIsoBv (fun 
     rcases he with rfl | rfl <;> intro σ τ h <;> simp only [demoIsoBv]
     · rw [h (Leg.gBra 0 1) (by simp [gBraT, T.fresh, Node.nbrs]), h (Leg.gBraPhys 0) (by simp [gBraT, T.fresh, Node.nbrs])]; simp
     · rw [h (Leg.gBra 1 0) (by simp [gBraT, T.fresh, Node.nbrs]), h (Leg.gBraPhys 1) (by simp [gBraT, T.fresh, Node.nbrs])]; simp
+
+/-! ### the centre shortcut for the output of the loop, EVERY centre (re-rooting, B50) -/
+
+/-- **every node of the tree is the root of one of its re-rootings** (so `scalar_product_centre_shortcut` covers
+every position of the orthogonality centre) -/
+theorem reroot_exists (t : Tree) (c : Nat) (hc : c ∈ t.ids) : ∃ ks, Rerooted t (.node c ks) := by
+  obtain ⟨t', hr, hid⟩ := c04_reroot_exists t c hc
+  obtain ⟨c', ks⟩ := t'
+  simp only [Tree.id] at hid
+  subst hid
+  exact ⟨ks, hr⟩
+
+/-- **a re-rooting keeps the network**: the identifiers are permuted, the specification graph keeps its legs and -
+both ends of every bond of equal dimension - its value as a summation record (it is permuted and the pairs of the
+crossed edges are turned around), the node tensors are the same up to order. -/
+theorem ssSpec_reroot_perm {R : Type} [CommSemiring R] (dim : Leg → Nat) {t t' : Tree} (h : Rerooted t t')
+    (hd : BondDims dim t) (hnd : (Expr.pairLegs (ssSpec t)).Nodup)
+    (kv bv : Nat → Asg Leg → R) (braKids braKids' : Nat → List Nat) :
+    t'.ids.Perm t.ids ∧ (Expr.pairLegs (ssSpec t')).Perm (Expr.pairLegs (ssSpec t)) ∧
+      (∀ (f : Asg Leg → R) σ, sumPairs dim (ssSpec t') f σ = sumPairs dim (ssSpec t) f σ) ∧
+      ((ssLeaves braKids' kv bv none t').map Prod.snd).Perm ((ssLeaves braKids kv bv none t).map Prod.snd) :=
+  ⟨c04_reroot_ids h, ssSpec_reroot_legs h, ssSpec_reroot_value dim h hd hnd,
+    ssLeaves_reroot_perm kv bv braKids h braKids'⟩
+
+/-- **The loop of `contract_two_ttns` returns the centre-only contraction for EVERY position of the orthogonality
+centre.**  The loop runs on the tree `t` as it is rooted (distinct identifiers, any child order of the bra network,
+any commutative semiring, all dimensions with both ends of every bond equal, node tensors reading only their own
+legs).  `node c ks` is any re-rooting of `t` (`Rerooted`; by `reroot_exists` every node `c` has one), and every node
+other than `c` is an isometry TOWARD `c` in index form (`IsoKids … c ks`: the edges oriented toward the centre - what
+C03 `canonical_form` establishes).  Then the loop returns a closed tensor, it is built by its own `tensordot` calls
+from the tensors of all nodes, and EVERY expression from which it is built evaluates to `Σ C · Cc` over one common
+index per leg of the centre tensor (`np.tensordot(tensor, tensor.conj(), axes=(legs, legs))`, the shortcut of
+`scalar_product`), which therefore equals the dense inner product `Σ_phys ketExpr·braExpr` of the tree as rooted. -/
+theorem scalar_product_centre_shortcut {R : Type} [CommSemiring R] (t : Tree) (hnd : t.ids.Nodup)
+    (braKids : Nat → List Nat) (hperm : ∀ e ∈ Tree.info none t, (braKids e.1).Perm e.2.2)
+    (kv bv : Nat → Asg Leg → R) (hkv : KetLocal kv t) (hbv : BraLocal bv braKids t)
+    (dim : Leg → Nat) (hd : BondDims dim t)
+    (c : Nat) (ks : List Tree) (hr : Rerooted t (.node c ks)) (hiso : IsoKids kv bv dim c ks) :
+    ∃ binds, contractTwoTtns (netOf t (fun _ ks => ks) gKetT) (netOf t (fun i _ => braKids i) gBraT)
+        = some ⟨[], binds⟩ ∧
+      (∃ e : Expr Leg R, Built ⟨[], binds⟩ e ∧ e.leaves.Perm (ssLeaves braKids kv bv none t)) ∧
+      ∀ e : Expr Leg R, Built ⟨[], binds⟩ e → e.leaves.Perm (ssLeaves braKids kv bv none t) →
+        ∀ σ : Asg Leg,
+          e.eval dim σ = netValue dim (physPair c :: downPairs c ks) [kv c, bv c] σ ∧
+          sumPairs dim (physPairs t)
+            (fun τ => (ketExpr kv t).eval dim τ * (braExpr bv braKids t).eval dim τ) σ =
+            netValue dim (physPair c :: downPairs c ks) [kv c, bv c] σ := by
+  obtain ⟨binds, hrun, hex, hall⟩ := contract_two_ttns_value t hnd braKids hperm kv bv hkv hbv
+  refine ⟨binds, hrun, hex, ?_⟩
+  intro e hb hl σ
+  obtain ⟨hswf, hbinds, _, hval⟩ := hall e hb hl
+  have hspec : binds.Perm (ssSpec t) := by
+    obtain ⟨b', hrun', hb'⟩ := contract_two_ttns_graph t hnd braKids hperm
+    rw [hrun] at hrun'
+    injection hrun' with h
+    injection h with _ h2
+    rw [h2]; exact hb'
+  have hrec := hbinds.trans hspec
+  have hnd2 : (Expr.pairLegs (ssSpec t)).Nodup := by
+    have hp : (Expr.pairLegs e.binds).Perm (Expr.pairLegs (ssSpec t)) :=
+      List.Perm.append (hrec.map _) (hrec.map _)
+    exact hp.nodup_iff.1 (Expr.binds_nodup e hswf)
+  have key : e.eval dim σ = netValue dim (physPair c :: downPairs c ks) [kv c, bv c] σ := by
+    rw [c04_eval_eq_netValue dim e hswf _ _ hrec (hl.map _) σ]
+    exact c04_centre_shortcut_netValue kv bv braKids dim t hnd c ks hr hd
+      (fun x hx => ⟨hkv x hx, hbv x hx, hperm x hx⟩) hiso hnd2 σ
+  exact ⟨key, by rw [← hval dim σ]; exact key⟩
+
+/-- the hypotheses of `scalar_product_centre_shortcut` hold with the centre NOT at the root: the loop runs on the
+tree `1 — 0` rooted at `1`, the centre is node `0` (tensors `demoIsoKv` / `demoIsoBv`: node 1 the isometry
+`δ(bond, phys)`, node 0 reading both of its legs; `IsoKids … 0 [node 1 []]` is the example above) -/
+example : Rerooted (.node 1 [.node 0 []]) (.node 0 [.node 1 []]) :=
+  Rerooted.step 1 0 [] [] [] Rerooted.refl
+
+example : BondDims (fun _ => 2) (.node 1 [.node 0 []]) := fun _ _ => ⟨rfl, rfl⟩
+
+example : KetLocal demoIsoKv (.node 1 [.node 0 []]) ∧ BraLocal demoIsoBv (fun i => if i = 1 then [0] else [])
+    (.node 1 [.node 0 []]) := by
+  constructor
+  · intro e he
+    simp only [Tree.info, Tree.infoL, List.map_cons, List.map_nil, Tree.id, List.append_nil, List.mem_cons,
+      List.not_mem_nil, or_false] at he
+    rcases he with rfl | rfl <;> intro σ τ h <;> simp only [demoIsoKv]
+    · rw [h (Leg.gKet 1 0) (by simp [gKetT, T.fresh, Node.nbrs]), h (Leg.gKetPhys 1) (by simp [gKetT, T.fresh, Node.nbrs])]; simp
+    · rw [h (Leg.gKet 0 1) (by simp [gKetT, T.fresh, Node.nbrs]), h (Leg.gKetPhys 0) (by simp [gKetT, T.fresh, Node.nbrs])]; simp
+  · intro e he
+    simp only [Tree.info, Tree.infoL, List.map_cons, List.map_nil, Tree.id, List.append_nil, List.mem_cons,
+      List.not_mem_nil, or_false] at he
+    rcases he with rfl | rfl <;> intro σ τ h <;> simp only [demoIsoBv]
+    · rw [h (Leg.gBra 1 0) (by simp [gBraT, T.fresh, Node.nbrs]), h (Leg.gBraPhys 1) (by simp [gBraT, T.fresh, Node.nbrs])]; simp
+    · rw [h (Leg.gBra 0 1) (by simp [gBraT, T.fresh, Node.nbrs]), h (Leg.gBraPhys 0) (by simp [gBraT, T.fresh, Node.nbrs])]; simp
 
 end Ptn.C04
